@@ -16,6 +16,78 @@ from .core import PKG, REPO, AnalysisError
 MODULES = ["__init__", "c_parser", "c_lexer", "c_ast", "c_generator", "ast_transforms", "_ast_gen"]
 
 
+class _ChainsToMatch(ast.NodeTransformer):
+    """Rewrites if/elif chains with three or more arms that test ONE side-effect-free subject against constants (==, in a display of
+    constants, isinstance) into the equivalent match statement, so that rules see the same shape whichever way the source spells a dispatch."""
+
+    MIN_ARMS = 3
+
+    @staticmethod
+    def _const(e):
+        return isinstance(e, ast.Constant) or (isinstance(e, ast.Attribute) and isinstance(e.value, (ast.Name, ast.Attribute)))
+
+    def _arm(self, test):
+        """(subject text, pattern, guard) for one arm, or None"""
+        guard = None
+        if isinstance(test, ast.BoolOp) and isinstance(test.op, ast.And) and len(test.values) >= 2:
+            first, rest = test.values[0], test.values[1:]
+            guard = rest[0] if len(rest) == 1 else ast.BoolOp(op=ast.And(), values=rest)
+            test = first
+        if isinstance(test, ast.BoolOp) and isinstance(test.op, ast.Or):
+            parts = [self._arm(v) for v in test.values]
+            if all(p_ and p_[2] is None for p_ in parts) and len({p_[0] for p_ in parts}) == 1:
+                pats = []
+                for p_ in parts:
+                    pats += p_[1].patterns if isinstance(p_[1], ast.MatchOr) else [p_[1]]
+                return parts[0][0], ast.MatchOr(patterns=pats), guard
+            return None
+        if isinstance(test, ast.Compare) and len(test.ops) == 1 and isinstance(test.left, (ast.Name, ast.Attribute)):
+            c = test.comparators[0]
+            if isinstance(test.ops[0], ast.Eq) and self._const(c):
+                return ast.unparse(test.left), ast.MatchValue(value=c), guard
+            if isinstance(test.ops[0], ast.In) and isinstance(c, (ast.Tuple, ast.Set, ast.List)) and c.elts and all(self._const(x) for x in c.elts):
+                pats = [ast.MatchValue(value=x) for x in c.elts]
+                return ast.unparse(test.left), (pats[0] if len(pats) == 1 else ast.MatchOr(patterns=pats)), guard
+        if isinstance(test, ast.Call) and isinstance(test.func, ast.Name) and test.func.id == "isinstance" and len(test.args) == 2 and not test.keywords and isinstance(test.args[0], (ast.Name, ast.Attribute)):
+            cls = test.args[1]
+            classes = cls.elts if isinstance(cls, ast.Tuple) else [cls]
+            if all(isinstance(x, (ast.Name, ast.Attribute)) for x in classes):
+                pats = [ast.MatchClass(cls=x, patterns=[], kwd_attrs=[], kwd_patterns=[]) for x in classes]
+                return ast.unparse(test.args[0]), (pats[0] if len(pats) == 1 else ast.MatchOr(patterns=pats)), guard
+        return None
+
+    def visit_If(self, node):
+        m = self._convert(node)
+        if m is None:
+            self.generic_visit(node)
+            return node
+        for case in m.cases:            # now the nested statements
+            case.body = [self.visit(st) for st in case.body]
+        return m
+
+    def _convert(self, node):
+        arms, cur = [], node
+        while True:
+            arms.append(cur)
+            if len(cur.orelse) == 1 and isinstance(cur.orelse[0], ast.If):
+                cur = cur.orelse[0]
+            else:
+                break
+        if len(arms) < self.MIN_ARMS and not (len(arms) == 2 and arms[-1].orelse):
+            return None
+        parsed = [self._arm(a.test) for a in arms]
+        if not all(parsed) or len({p_[0] for p_ in parsed}) != 1:
+            return None
+        first = arms[0].test
+        while isinstance(first, ast.BoolOp):
+            first = first.values[0]
+        subject = first.left if isinstance(first, ast.Compare) else first.args[0]
+        cases = [ast.copy_location(ast.match_case(pattern=p_[1], guard=p_[2], body=a.body), a) for a, p_ in zip(arms, parsed)]
+        if arms[-1].orelse:
+            cases.append(ast.match_case(pattern=ast.MatchAs(pattern=None, name=None), guard=None, body=arms[-1].orelse))
+        return ast.copy_location(ast.Match(subject=subject, cases=cases), node)
+
+
 class Module:
     def __init__(self, name, path, src=None):
         self.name = name
@@ -29,6 +101,8 @@ class Module:
             self.tree = ast.parse(self.src, filename=path)
         except SyntaxError as e:  # the tree must at least compile
             raise AnalysisError(f"{path} does not parse: {e}")
+        self.tree = _ChainsToMatch().visit(self.tree)     # one normal form for dispatch on a value: `if x == A: .. elif x == B: .. else: ..` (3+ arms) reads as match/case
+        ast.fix_missing_locations(self.tree)
         self.classes: dict[str, ast.ClassDef] = {}
         self.functions: dict[str, ast.FunctionDef] = {}
         self.assigns: dict[str, list[ast.stmt]] = {}
